@@ -170,8 +170,11 @@ class Forms(HypPart):
 class CliSubprocess(HypPart):
     name = 'cli-subprocess'
     budget = {'quick': 480, 'thorough': 12000}
-    rule = ('batches of 1..8 generated files passed to a real "python -m mistletoe f1 .. fn [-r path]" subprocess; stdout must be the '
+    rule = ('batches of 1..8 generated files passed to a real "python -m mistletoe f1 .. fn [-r path]" subprocess, a quarter of the '
+            'command lines naming a file twice (same, relative or ./ spelling); stdout must be the '
             'concatenation, in argument order, of the in-process results; non-trivial as above for at least one file of the batch')
+
+    required_labels = {'file-named-twice': 0.05}
 
     def strategy(self, tier):
         return tapes(200, 1500)
@@ -184,7 +187,12 @@ class CliSubprocess(HypPart):
             if t.chance(60):
                 text = text.rstrip('\n')
             texts.append(text)
-        yield {'texts': texts, 'renderer': t.choice(NAMES)}
+        # the command line: every file once, in order; sometimes a file is named again, under the same or another spelling
+        argv = [[i, 0] for i in range(len(texts))]
+        if t.chance(70):
+            for _ in range(1 + t.below(2)):
+                argv.insert(t.below(len(argv) + 1), [t.below(len(texts)), t.below(3)])
+        yield {'texts': texts, 'renderer': t.choice(NAMES), 'argv': argv}
 
     def check(self, case):
         import mistletoe
@@ -194,15 +202,16 @@ class CliSubprocess(HypPart):
         if not texts:
             return Out(skip='line separator other than \\n')
         cls = renderers.renderer_class(name)
+        argv = [(i, k) for i, k in (case.get('argv') or []) if isinstance(i, int) and 0 <= i < len(texts)] or [(i, 0) for i in range(len(texts))]
         try:
-            expected = ''.join(mistletoe.markdown(x, cls) for x in texts)
+            expected = ''.join(mistletoe.markdown(texts[i], cls) for i, _ in argv)
             nt = False
             for x in texts:
                 with renderers.make(name) as r:
                     nt = nt or nontrivial(x, Document(x))
         except Exception as exc:
             return Out(skip='raised ' + exc_sig(exc))
-        labels = ('renderer:' + name, 'files:%d' % len(texts))
+        labels = ('renderer:' + name, 'files:%d' % len(texts)) + (('file-named-twice',) if len(argv) > len(set(i for i, _ in argv)) else ())
         with tempfile.TemporaryDirectory(prefix='vf-c15-') as d:
             paths = []
             for i, x in enumerate(texts):
@@ -210,7 +219,8 @@ class CliSubprocess(HypPart):
                 with open(p, 'w', encoding='utf-8', newline='') as f:
                     f.write(x)
                 paths.append(p)
-            cmd = [sys.executable, '-m', 'mistletoe'] + paths + (['-r', PATHS[name]] if name != 'Html' else [])
+            spell = lambda i, k: paths[i] if k == 0 else os.path.basename(paths[i]) if k == 1 else './' + os.path.basename(paths[i])
+            cmd = [sys.executable, '-m', 'mistletoe'] + [spell(i, k) for i, k in argv] + (['-r', PATHS[name]] if name != 'Html' else [])
             envv = dict(os.environ, PYTHONPATH=env.REPO, PYTHONHASHSEED='0', PYTHONDONTWRITEBYTECODE='1',
                         PYTHONIOENCODING='utf-8')
             try:
